@@ -21,6 +21,7 @@ struct POut {
 	int err = 0;       // json_tokener_error
 	bool has = false;  // non-NULL object returned
 	Val v;
+	std::string ser;   // PLAIN serialisation of the returned value (carries retained number text)
 	size_t end = 0;
 	bool same(const POut &o, std::string &why, DblCmp dc = DBL_BITS) const
 	{
@@ -40,7 +41,14 @@ struct POut {
 			why = "value presence differs";
 			return false;
 		}
-		return same_val(v, o.v, why, dc);
+		if (!same_val(v, o.v, why, dc))
+			return false;
+		if (ser != o.ser)
+		{
+			why = "serialisation of the value differs: " + quote(ser, 200) + " vs " + quote(o.ser, 200);
+			return false;
+		}
+		return true;
 	}
 	std::string show_() const
 	{
@@ -58,7 +66,13 @@ inline POut parse_call(json_tokener *tok, const std::string &bytes, bool nul)
 	r.end = json_tokener_get_parse_end(tok);
 	r.has = o != nullptr;
 	if (o)
+	{
 		r.v = dump(o);
+		size_t sl = 0;
+		const char *st = json_object_to_json_string_length(o, JSON_C_TO_STRING_PLAIN, &sl);
+		if (st)
+			r.ser.assign(st, sl);
+	}
 	json_object_put(o);
 	return r;
 }
